@@ -229,6 +229,185 @@ def mass_witness(nodes):
     return None
 
 
+# ------------------------------------------------------------------ histories of context blocks (deeprob/context.py)
+class Boom(Exception):
+    pass
+
+
+def gen_program(rs, depth=0, budget=None):
+    """random well-bracketed history: items are 'Q' or dict(kw, deco, raises, body)."""
+    budget = budget if budget is not None else [int(rs.randint(3, 12))]
+    items = []
+    while budget[0] > 0 and rs.rand() < (0.85 if depth == 0 else 0.6):
+        budget[0] -= 1
+        if rs.rand() < 0.35 or depth >= 4:
+            items.append("Q")
+        else:
+            kw = {}
+            for name in ("check_dtype", "check_spn"):
+                if rs.rand() < 0.6:
+                    kw[name] = bool(rs.rand() < 0.4)
+            items.append(dict(kw=kw, deco=bool(rs.rand() < 0.3), raises=bool(rs.rand() < 0.45),
+                              body=gen_program(rs, depth + 1, budget)))
+    if depth == 0:
+        items.append("Q")
+    return items
+
+
+def program_tokens(items):
+    out = []
+    for it in items:
+        if it == "Q":
+            out.append("OQuery")
+        else:
+            k = lambda n: "None" if n not in it["kw"] else f"(Some {'true' if it['kw'][n] else 'false'})"
+            out.append(f"({'ODeco' if it['deco'] else 'OWith'} (Build_kwargs {k('check_dtype')} {k('check_spn')}))")
+            out += program_tokens(it["body"])
+            out.append(f"(OExit {'true' if it['raises'] else 'false'})")
+    return out
+
+
+def run_program(items, probe=None):
+    """execute the history with the real ContextState in a fresh contextvars context; returns the flag codes seen by
+    the queries and what `probe` (a call on an invalid circuit) did after the history."""
+    import contextvars
+    from deeprob.context import ContextState, is_check_dtype_enabled, is_check_spn_enabled
+    out = []
+
+    def prepare(items):          # decorated functions are created when the program starts
+        for it in items:
+            if it != "Q":
+                if it["deco"]:
+                    @ContextState(**it["kw"])
+                    def call(g):
+                        g()
+                    it["_f"] = call
+                prepare(it["body"])
+
+    def exec_items(items, parent):
+        for i, it in enumerate(items):
+            if it == "Q":
+                out.append((2 if is_check_dtype_enabled() else 0) + (1 if is_check_spn_enabled() else 0))
+                continue
+            last_raiser = bool(it["body"]) and it["body"][-1] != "Q" and it["body"][-1]["raises"]
+            def body(it=it, last_raiser=last_raiser):
+                exec_items(it["body"], it)
+                if it["raises"] and not last_raiser:
+                    raise Boom()
+            propagate = parent is not None and parent["raises"] and i == len(items) - 1
+            try:
+                if it["deco"]:
+                    it["_f"](body)
+                else:
+                    with ContextState(**it["kw"]):
+                        body()
+            except Boom:
+                if propagate:
+                    raise
+    res = {}
+
+    def go():
+        prepare(items)
+        exec_items(items, None)
+        if probe is not None:
+            res["probe"] = probe()
+    contextvars.Context().run(go)
+    return out, res.get("probe")
+
+
+def invalid_probe():
+    """a product whose children overlap (scopes {0},{0},{2} labelled {0,1,2}): must be rejected."""
+    from deeprob.spn.structure.leaf import Bernoulli
+    from deeprob.spn.structure.node import Product, assign_ids
+    from deeprob.spn.algorithms.inference import log_likelihood
+    p = Product(children=[Bernoulli(0, p=0.3), Bernoulli(1, p=0.6), Bernoulli(2, p=0.5)])
+    p.children[1].scope = [0]          # corrupted after construction (the constructor itself rejects overlaps)
+    assign_ids(p)
+    try:
+        log_likelihood(p, np.zeros((1, 3), dtype=np.float32))
+        return "accepted"
+    except ValueError:
+        return "rejected"
+    except Exception as e:
+        return f"{type(e).__name__}"
+
+
+def api_histories():
+    """failures INSIDE the library's own no-check blocks, then an invalid circuit: [(history, outcome)]."""
+    import contextvars
+    from deeprob.spn.structure.leaf import Bernoulli
+    from deeprob.spn.structure.node import Sum, Product, assign_ids
+    from deeprob.spn.algorithms.inference import mpe
+    from deeprob.spn.algorithms.sampling import sample
+    from deeprob.context import ContextState, is_check_spn_enabled
+    good = Sum(children=[Product(children=[Bernoulli(0, p=0.2), Bernoulli(1, p=0.7)]),
+                         Product(children=[Bernoulli(0, p=0.9), Bernoulli(1, p=0.4)])], weights=[0.5, 0.5])
+    assign_ids(good)
+    ro = np.full((2, 2), np.nan, dtype=np.float32); ro.setflags(write=False)
+
+    def h_mpe():
+        mpe(good, ro, inplace=True)
+
+    def h_sample():
+        sample(good, ro, inplace=True)
+
+    def h_user():
+        with ContextState(check_spn=False):
+            raise Boom()
+
+    def h_nested():
+        with ContextState(check_dtype=False):
+            mpe(good, ro, inplace=True)
+    out = []
+    for name, h in (("mpe(inplace=True) on a read-only array", h_mpe), ("sample(inplace=True) on a read-only array", h_sample),
+                    ("user block left by an exception", h_user), ("library failure inside a user block", h_nested)):
+        def go(h=h):
+            try:
+                h(); raised = False
+            except Exception:
+                raised = True
+            return raised, is_check_spn_enabled(), invalid_probe()
+        out.append((name,) + contextvars.Context().run(go))
+    return out
+
+
+def gate_stage(rep, rs, tier):
+    nprog = 150 if tier == "quick" else 1500
+    progs = [gen_program(rs) for _ in range(nprog)]
+    runs = [run_program(p, probe=invalid_probe) for p in progs]
+    body = ["From Coq Require Import List.", "From DV Require Import Model.Gate.", "Import ListNotations."]
+    body.append("Eval vm_compute in (concat (map (fun l => 9 :: run_gate l) [" +
+                ";\n ".join("[" + "; ".join(program_tokens(p)) + "]" for p in progs) + "])).")
+    (name, rc, ints, raw), = C.run_case_files(PID, [("gate_0", "\n".join(body))])
+    if rc != 0 or ints is None:
+        rep.obligation(False); rep.violation(dict(kind="correspondence-shard-failed", shard=name, log=raw), False); return
+    rep.obligation(True)
+    groups = []
+    for z in ints:
+        if z == 9:
+            groups.append([])
+        else:
+            groups[-1].append(z)
+    nq = 0; bad = 0
+    for p, (seen, probe), want in zip(progs, runs, groups):
+        nq += len(want)
+        rep.count(dict(gate_history=program_tokens(p)), nontrivial=len(p) > 1)
+        if seen != want or probe != "rejected":
+            bad += 1
+            if bad <= 3:
+                rep.violation(dict(kind="context-flags-differ-from-the-model-after-a-history", history=program_tokens(p),
+                                   flags_seen_by_queries=seen, model=want,
+                                   invalid_circuit_after_history=probe,
+                                   note="flag code = 2*check_dtype + check_spn; the probe is log_likelihood on a product with overlapping children"),
+                              found_input=True)
+    rep.cov["gate_histories"] = dict(programs=nprog, queries=nq, raising_blocks=sum(t.count("(OExit true)") for t in map(program_tokens, progs)))
+    for name, raised, enabled, probe in api_histories():
+        if not raised or not enabled or probe != "rejected":
+            rep.violation(dict(kind="gate-not-restored-after-a-failed-library-call", history=name, call_raised=raised,
+                               check_spn_enabled_afterwards=enabled, invalid_circuit_afterwards=probe), found_input=True)
+    rep.cov["gate_api_histories"] = 4
+
+
 def main(tier, seed, replay=None):
     rep = C.Report(PID, tier, seed)
     rs = np.random.RandomState(seed % (2 ** 31))
@@ -309,6 +488,7 @@ def main(tier, seed, replay=None):
             rep.violation(dict(kind="entry-point-did-not-raise-on-rejected-circuit", entry_points=bad, heap=sp.objs, tag=tag), True)
             break
     rep.cov["entry_point_checks"] = n_ep
+    gate_stage(rep, rs, tier)
     for tag, sp in specs[:1] + specs[len(specs) // 2:len(specs) // 2 + 1] + specs[-1:]:
         rep.sample(dict(tag=tag, heap=sp.objs))
     for tag, sp, r, code in flagged[:5]:
